@@ -881,6 +881,7 @@ func run(r *report.Run, shard, nshards int, replayFile string) {
 		"after every accepted vote every attestation record must be stored under the key recomputed from the claim body it persists (record:stored-claim-hashes-to-other-key); the pooled/not-pooled decision of the pair oracle uses the store key of the record the first vote really created; keys are computed before delivery because a handler may modify the message object",
 		"math.Int fields take sign / width variants: N, -N, 0, 2^256-1, -(2^256-1) (2^256 is not representable by math.Int) in the pair, collision and cross-type passes; a claim whose ClaimHash fails or panics is counted and gets no key",
 		"the latest compass id of the scenario chains is recorded through the real activation path (EvmKeeper.ActivateChainReferenceID -> EVMActivatedChain event -> skyway keeper); asserted at start-up",
+		"genesis round trip (per routable claim type, both chains in both roles, attestation list as exported and reversed): ExportGenesis -> JSON -> ValidateBasic -> InitGenesis into a fork whose skyway store was emptied (the other modules keep their state); imported records must sit under the key of the body they store and equal the exported ones (votes, observed flag, observed and per-validator nonces); finishing the votes to quorum must give the same acceptance, records, nonces and bank/acc/feegrant/paloma/distribution digests as without the import. The latest compass id is not part of the skyway genesis, so the full skyway digest is not compared",
 		"thorough tier: separator-shift pairs over every ordered pair / triple of string (and numeric middle) fields, reported under signature prefix sepshift:",
 	}
 	if shard == 0 {
@@ -937,6 +938,7 @@ func run(r *report.Run, shard, nshards int, replayFile string) {
 	e.collisionSearch(shard, nshards, deadline, want)
 	e.crossTypeSearch(shard, nshards, deadline, want)
 	e.sequencePass(shard, nshards, want)
+	e.genesisPass(shard, want)
 	r.Extra["claims_without_hash (ClaimHash error or panic)"] = float64(unhashable)
 	var ne, nf, nk float64
 	for k, v := range e.effects {
